@@ -233,7 +233,9 @@ package fs
 //@   modifies c.parentDirs, c.parentDirs[*], c.inodes[*], array byte, global bufferPool
 //@   effects *
 //@   ensures stack: len(c.parentDirs) == old(len(c.parentDirs)) && (ref(c.parentDirs) == old(ref(c.parentDirs)) || fresh(c.parentDirs))
-//@   at call copier.removeTargetIfNeeded: lstat_only: cnt(Stat) == old(cnt(Stat)) && cnt(Lstat) == old(cnt(Lstat)) + 2 && include
+//@   at call copier.removeTargetIfNeeded: lstat_only: cnt(Lstat) == old(cnt(Lstat)) + 2 && include
+//@   at call copier.removeTargetIfNeeded: parents_checked_before_replace: forall k int :: 0 <= k && k < len(c.parentDirs) ==> c.parentDirs[k].copied
+//@   at call copier.createParentDirs: lstat_only: cnt(Stat) == old(cnt(Stat)) && cnt(Lstat) == old(cnt(Lstat)) + 2
 //@   at call copier.include: not_for_root: srcComponents != ""
 //@   at call copier.createParentDirs: selected: include && (srcComponents == "" || (matchesIncludePattern && !matchesExcludePattern))
 //@   at call ensureEmptyFileTarget: selected_file: include && !fi.IsDir() && arg0 == target
@@ -284,7 +286,7 @@ package fs
 //@   ensures src_lstat: cnt(Lstat) >= old(cnt(Lstat)) + 1
 //@   at call os.Lstat#0: source: arg0 == srcFollowed
 //@   at call os.Stat#0: dest: arg0 == destPath && cnt(Lstat) == old(cnt(Lstat)) + 1
-//@   at call MkdirAll: rows: arg0 == ite(copyDirContents && fiSrc.IsDir() && fiDest == nil, ite((!copyDirContents && fiSrc.IsDir() && fiDest != nil) || (!fiSrc.IsDir() && fiDest != nil && fiDest.IsDir()), filepath.Join(destPath, filepath.Base(src)), destPath), filepath.Dir(ite((!copyDirContents && fiSrc.IsDir() && fiDest != nil) || (!fiSrc.IsDir() && fiDest != nil && fiDest.IsDir()), filepath.Join(destPath, filepath.Base(src)), destPath)))
+//@   at call MkdirAll: rows: arg0 == ite(copyDirContents && fiSrc.IsDir() && fiDest == nil, ite((!copyDirContents && fiSrc.IsDir() && fiDest != nil) || (!fiSrc.IsDir() && fiDest != nil && fiDest.IsDir()), filepath.Join(destPath, filepath.Base(filepath.Join("/", src))), destPath), filepath.Dir(ite((!copyDirContents && fiSrc.IsDir() && fiDest != nil) || (!fiSrc.IsDir() && fiDest != nil && fiDest.IsDir()), filepath.Join(destPath, filepath.Base(filepath.Join("/", src))), destPath)))
 
 // src and dst arguments are resolved as if their root were "/"
 //@ func rootPath
